@@ -181,6 +181,7 @@ func (s *Session) verifyKey(key string, con *Contract) *Unit {
 		u.Obls = append(u.Obls, &Obligation{Name: u.Short + ":binding", Goal: "function under contract exists with a body", Result: SolveResult{Status: "unknown", Model: "no function " + key + " in the loaded packages"}})
 		return u
 	}
+	con = con.forProp(s.propID)
 	e := &Eng{funcIndex: s.ix, propID: s.propID, lit: lit, pkg: ref.pkg, info: ref.pkg.TypesInfo, fset: ref.pkg.Fset, contracts: s.cs, fn: ref.fd, fnKey: u.Short, con: con, strLits: map[string]string{}, allTags: &s.tags, globals: map[string]*Val{}, trustedUsed: map[string]bool{}}
 	func() {
 		defer func() {
@@ -406,4 +407,38 @@ func sanitize(name string) string {
 		r = r[:150]
 	}
 	return r
+}
+
+// forProp drops the anchored clauses that are restricted to another property (`at ... requires @Cxx E`); an anchor
+// left without clauses disappears with them.
+func (c *Contract) forProp(id string) *Contract {
+	if c == nil {
+		return nil
+	}
+	need := false
+	for _, cls := range c.At {
+		for _, cl := range cls {
+			if cl.Prop != "" && cl.Prop != id {
+				need = true
+			}
+		}
+	}
+	if !need {
+		return c
+	}
+	cp := *c
+	cp.At = map[string][]AtClause{}
+	for k, cls := range c.At {
+		var keep []AtClause
+		for _, cl := range cls {
+			if cl.Prop == "" || cl.Prop == id {
+				keep = append(keep, cl)
+			}
+		}
+		if len(keep) > 0 {
+			cp.At[k] = keep
+		}
+	}
+	cp.atUsed = map[string]bool{}
+	return &cp
 }
